@@ -424,6 +424,113 @@ def install_contracts():
 
 
 # ------------------------------------------------------------------------------------------ driver
+def _questions(chart):
+    """zero-argument read-only uses of one chart: tick-to-time questions (plain, hinted, refused), rates (tick-bounded, time-bounded,
+    failing), lookups, renderings, derived attributes"""
+    be = chart.sync_track.bpm_events
+    tt = [e.tick for e in be]
+    ticks = sorted({0, 1, tt[-1] + 3} | {t + d for t in tt[:5] + tt[-3:] for d in (-1, 0, 1) if t + d >= 0})
+    qs = []
+    for t in ticks:
+        qs.append(lambda t=t: str(be.timestamp_at_tick_no_optimize_return(t)))
+        qs.append(lambda t=t: (lambda r: (str(r[0]), r[1]))(be.timestamp_at_tick(t)))
+    qs.append(lambda: be.timestamp_at_tick(-1))
+    qs.append(lambda: be.timestamp_at_tick(0, start_iteration_index=len(be) + 1))
+    qs.append(lambda: (lambda r: (str(r[0]), r[1]))(be.timestamp_at_tick(tt[-1] + 1, start_iteration_index=len(be) - 1)))
+    I, D = harness.Instrument, harness.Difficulty
+    for inst, m in chart.instrument_tracks.items():
+        qs.append(lambda inst=inst: sorted(d.name for d in chart[inst]))
+        for diff, tr in m.items():
+            nt = [n.tick for n in tr.note_events][:4] or [0]
+            for a in nt:
+                qs.append(lambda inst=inst, diff=diff, a=a: chart.notes_per_second(inst, diff, a))
+                qs.append(lambda inst=inst, diff=diff, a=a: chart.notes_per_second(inst, diff, a, a + 700))
+            qs.append(lambda inst=inst, diff=diff: chart.notes_per_second(inst, diff))
+            qs.append(lambda inst=inst, diff=diff: chart.notes_per_second(inst, diff, timedelta(0), timedelta(seconds=2)))
+            qs.append(lambda tr=tr: str(tr.last_note_end_timestamp))
+            qs.append(lambda tr=tr: tr.header_tag)
+            qs.append(lambda tr=tr: [(n.end_tick, n.longest_sustain, str(n.end_timestamp)) for n in list(tr.note_events)[:6]])
+    qs.append(lambda: chart.notes_per_second(I.KEYS, D.EASY))
+    qs = qs[:160]
+    # (the last one renders; rendering is left out of the aborted-use stage: the standard library's own repr machinery - the guard set
+    # of dataclasses' generated __repr__ - is not abort-safe, and a '...' it then prints is no fault of the code under observation)
+    qs.append(lambda: len(str(chart)) + len(repr(chart.sync_track)) + sum(len(str(tr_)) for m_ in chart.instrument_tracks.values() for tr_ in m_.values()))
+    return qs
+
+
+def extra_stages(rec, case, chart, twin, before, rng) -> bool:
+    """(a) heavy use: hundreds of repetitions of the same read-only questions on ONE chart; (b) the chart shared by four threads asking
+    at once; (c) read-only uses cut short by an asynchronous exception the application swallows; (d) every attribute of every object
+    enumerated the way debuggers and serialisers do (inspect.getmembers). After each: the chart is the chart it was."""
+    text, seed_key = case["text"], case["opseed"]
+    rc = {"text": text, "ops": case["ops"], "opseed": seed_key, "want": case.get("want"), "stages": True}
+    was, _C19State.active = _C19State.active, False
+    try:
+        qs = _questions(chart)
+
+        def settle(label) -> bool:
+            try:
+                after = state(chart, twin)
+            except Exception as e:  # noqa
+                rec.ev()
+                rec.violation("state-changed", f"after {label} the chart's public attributes can no longer be read: {harness.exc_str(e)}", rc, f"state-changed-by:{label}")
+                return False
+            rec.ev()
+            if after != before:
+                rec.violation("state-changed", f"{label} changed the chart: {describe_change(before, after)}", rc, f"state-changed-by:{label}")
+                return False
+            rec.cls("stage:" + label)
+            return True
+
+        want = [harness._norm(q) for q in qs]
+        for r in range(4):
+            for k, q in enumerate(qs):
+                got = harness._norm(q)
+                if got != want[k]:
+                    rec.ev()
+                    rec.violation("state-changed", f"read-only question #{k} put to one chart for the {r + 2}th time (after {(r + 1) * len(qs)} other questions) is answered {got[:120]}; "
+                                  f"the first time {want[k][:120]}", rc, "state-changed-by:heavy_use")
+                    return False
+        if not settle("heavy_use:each_question_asked_5_times_over"):
+            return False
+        bad = harness.shared_use(rec, qs, len(text), rounds=2, plain_rounds=8)
+        rec.ev()
+        if bad:
+            rec.violation("state-changed", "one chart used read-only by 4 threads at once: " + bad, rc, "state-changed-by:shared_use_by_threads")
+            return False
+        if not settle("shared_use_by_4_threads"):
+            return False
+        n = harness.interrupted(lambda: [harness._norm(q) for q in qs[:-1]], rng, 6, rec)
+        if n:
+            again = [harness._norm(q) for q in qs]
+            rec.ev()
+            if again != want:
+                k = next(i for i in range(len(want)) if again[i] != want[i])
+                rec.violation("state-changed", f"after {n} read-only uses were cut short by an asynchronous exception (swallowed by the application), question #{k} is "
+                              f"answered {again[k][:120]}; before, {want[k][:120]}", rc, "state-changed-by:aborted_read_only_use")
+                return False
+            if not settle("read_only_uses_aborted_by_an_asynchronous_exception"):
+                return False
+        import inspect
+
+        objs = [chart, chart.metadata, chart.sync_track, chart.sync_track.bpm_events, chart.global_events_track]
+        for m in chart.instrument_tracks.values():
+            for tr in m.values():
+                objs.append(tr)
+                objs += list(tr.note_events)[:2] + list(tr.star_power_events)[:1] + list(tr.track_events)[:1]
+        objs += list(chart.global_events_track.text_events)[:1] + list(chart.global_events_track.section_events)[:1] + list(chart.sync_track.bpm_events)[:1]
+        for o in objs:
+            try:
+                inspect.getmembers(o)
+            except Exception:  # noqa - an attribute that raises is not a state change
+                rec.mon("getmembers_raised")
+        if not settle("every_attribute_enumerated_with_inspect.getmembers"):
+            return False
+        return True
+    finally:
+        _C19State.active = was
+
+
 def run_case(rec, case: dict) -> None:
     text, ops, seed_key = case["text"], case["ops"], case["opseed"]
     want = harness.pairs([tuple(p) for p in case["want"]]) if case.get("want") is not None else None
@@ -513,6 +620,9 @@ def run_case(rec, case: dict) -> None:
                               {"text": text, "ops": ops[:k + 1], "opseed": seed_key, "want": case.get("want")}, mech)
                 return
             before = after
+        if case.get("stages") and not rec.violations:
+            if not extra_stages(rec, case, chart, twin, before, rng):
+                return
         for bch in contracts.drain("C19"):
             rec.violation("contract", bch["message"], {"text": text, "ops": ops, "opseed": seed_key, "want": case.get("want")}, "state-changed-in-successful-call")
         assignment_probes(rec, chart, {"text": text, "ops": [], "opseed": seed_key, "want": case.get("want")})
@@ -536,6 +646,8 @@ def run_shard(shard, rec, tier, seed):
         n_ops = rng.choice([5, 10, 20, 40, 120])
         ops = [rng.choice(OPS) for _ in range(n_ops)]
         c = {"text": case["text"], "ops": ops, "opseed": f"{seed}/{shard['name']}/{i}"}
+        if i % 3 == 2:
+            c["stages"] = True
         keys = sorted(case["truth"]["tracks"])
         if i % 4 == 1 and keys:
             # a selection that drops every difficulty of some instrument, keeps others, names absent pairs
